@@ -1842,12 +1842,14 @@ fn main() {
                 },
             );
             rep.notes.push(format!(
-                "cases: every pair of single operations from a {}-operation alphabet on two shared lists (one full, one with room), then {} random cases (2{} threads × ≤ {} ops, + handle drops{}){}; every maximal schedule of every case is executed on the real code",
+                "cases: {} class representatives first (element-level walker x mutator, == over equal lists, concat / + with empty operands through compiled scripts and directly, every scripted operation x mutator), then every pair of single operations from a {}-operation alphabet on two shared lists (one full, one with room), then {} random cases (2{} threads × ≤ {} ops, + handle drops{}; every 8th through compiled scripts), then {} random cases over probe elements{}; every maximal schedule of every case is executed on the real code",
+                representatives().len(),
                 alphabet().len(),
                 n_random(thorough),
                 if thorough { "–3" } else { "" },
                 if thorough { 3 } else { 2 },
                 if thorough { "" } else { "; every 16th has 3 threads x 1 op" },
+                n_random_elem(thorough),
                 if thorough { format!(", then every pair of the {} programs of ≤ 2 operations over an {}-operation alphabet", small_programs().len(), small_alphabet().len()) } else { String::new() },
             ));
             if !model {
